@@ -161,9 +161,38 @@ def _dir_expr(call):
     return None
 
 
+def _rename_locals(helper):
+    import copy
+    helper = copy.deepcopy(helper)
+    local = set(a.arg for a in helper.args.args)
+    for n in ast.walk(helper):
+        if isinstance(n, ast.Name) and isinstance(n.ctx, ast.Store):
+            local.add(n.id)
+    pre = helper.name + '$'
+
+    class R(ast.NodeTransformer):
+        def visit_Name(self, node):
+            if node.id in local:
+                return ast.copy_location(
+                    ast.Name(id=pre + node.id, ctx=node.ctx), node)
+            return node
+
+    R().visit(helper)
+    for a in helper.args.args:
+        a.arg = pre + a.arg
+    return helper
+
+
+HARM_SLOT = 1000   # "something of the caller's has been removed" (never cleaned)
+
+
 class _Skel(object):
-    def __init__(self, fn, scratch_params, output_exprs):
+    def __init__(self, fn, scratch_params, output_exprs, module_funcs=None):
         self.fn = fn
+        self.module_funcs = module_funcs or {}
+        self.depth = 0
+        self.unsafe_cleans = set()   # id() of _clean_up calls that may hit
+                                     # the caller's directory
         self.slots = {}          # variable name -> slot number
         self.n_mk = 0
         self.cleaned = set()
@@ -175,6 +204,7 @@ class _Skel(object):
         """slot of a `dir=` expression"""
         if e is None:
             raise TranslateError('%s: mk site without dir=' % self.fn.name)
+        e = self.resolve(e)
         src = ast.unparse(e)
         if src in self.scratch_params:
             return 0
@@ -186,13 +216,104 @@ class _Skel(object):
                              'an output directory nor a local scratch '
                              'directory' % (self.fn.name, src))
 
+    def resolve(self, e):
+        """follow parameter / loop-variable aliases"""
+        seen = 0
+        while isinstance(e, ast.Name) and e.id in self.alias and seen < 8:
+            e = self.alias[e.id]
+            seen += 1
+        return e
+
     def stmts(self, body):
         out = []
         for s in body:
             out += self.stmt(s)
         return out
 
+    def helper_of(self, call):
+        """a call to a plain function defined in the same module"""
+        if isinstance(call, ast.Call) and isinstance(call.func, ast.Name) \
+                and call.func.id in self.module_funcs \
+                and call.func.id != self.fn.name and self.depth < 2:
+            return self.module_funcs[call.func.id]
+        return None
+
+    def inline(self, call, helper, bind_to=None):
+        """the helper's body, translated as if written at the call site
+        (parameters stand for the argument expressions); None if the helper
+        handles no scratch resources (then the call is an ordinary call)"""
+        # the helper's own names (parameters, assigned names) get a prefix so
+        # that they cannot be mistaken for the caller's
+        helper = _rename_locals(helper)
+        params = [a.arg for a in helper.args.args]
+        saved = dict(self.alias)
+        amap = {}
+        for prm, arg in zip(params, call.args):
+            amap[prm] = self.resolve(arg)
+        for kw in call.keywords:
+            if kw.arg is not None and helper.name + '$' + kw.arg in params:
+                amap[helper.name + '$' + kw.arg] = self.resolve(kw.value)
+        # only names / tuples of names are worth aliasing
+        amap = {k: v for k, v in amap.items()
+                if isinstance(v, (ast.Name, ast.Tuple, ast.List,
+                                  ast.Subscript))}
+        slots_before = dict(self.slots)
+        n_before = self.n_mk
+        self.alias.update(amap)
+        self.depth += 1
+        cleaned_before = set(self.cleaned)
+        sp_before = list(self.scratch_params)
+        try:
+            body = self.stmts(helper.body)
+        except TranslateError:
+            # a helper the translator cannot follow is an ordinary call (as
+            # before helpers were followed at all): whatever it cleans is
+            # then not credited to the caller
+            self.slots = slots_before
+            self.n_mk = n_before
+            self.cleaned = cleaned_before
+            self.scratch_params = sp_before
+            return None
+        finally:
+            self.depth -= 1
+            self.alias = saved
+        flat = list(_flat(body))
+        if not any(x[0] in ('mk', 'clean', 'iflive') for x in flat):
+            # nothing of interest inside: forget what the walk did
+            self.slots = slots_before
+            self.n_mk = n_before
+            return None
+        # a return at the very end of the helper just ends it
+        ret_name = None
+        last = helper.body[-1] if helper.body else None
+        if body and body[-1][0] == 'ret':
+            body = body[:-1]
+            if body and body[-1][0] == 'call' and isinstance(
+                    last, ast.Return) and not isinstance(
+                    last.value, (ast.Name, ast.Constant, type(None))):
+                pass
+            if isinstance(last, ast.Return) and isinstance(last.value,
+                                                           ast.Name):
+                ret_name = last.value.id
+        if any(x[0] == 'ret' for x in _flat(body)):
+            raise TranslateError('%s: helper %s returns early while '
+                                 'handling scratch resources'
+                                 % (self.fn.name, helper.name))
+        if bind_to is not None and ret_name in self.slots:
+            self.slots[bind_to] = self.slots[ret_name]
+        return body
+
+
     def stmt(self, s):
+        out = self._stmt(s)
+        if isinstance(s, ast.Assign):
+            for t in s.targets:
+                if isinstance(t, ast.Name):
+                    self.alias.pop(t.id, None)   # re-bound: no longer the
+                                                 # caller's expression
+        return out
+
+    def _stmt(self, s):
         if isinstance(s, ast.Assign) and len(s.targets) == 1:
             call = _is_mk_call(s.value)
             if call is not None:
@@ -215,6 +336,11 @@ class _Skel(object):
                         self.scratch_params = [
                             p for p in self.scratch_params if p != tgt.id]
                 return [('mk', v, d)]
+            h = self.helper_of(s.value)
+            if h is not None and isinstance(s.targets[0], ast.Name):
+                body = self.inline(s.value, h, bind_to=s.targets[0].id)
+                if body is not None:
+                    return body
             if self._may_raise(s.value):
                 return [('call',)]
             # rebinding of a tracked name to something else loses track
@@ -233,10 +359,16 @@ class _Skel(object):
         if isinstance(s, ast.Expr):
             c = s.value
             if isinstance(c, ast.Call) and isinstance(c.func, ast.Name) \
-                    and c.func.id == '_clean_up' and len(c.args) == 1:
-                a = c.args[0]
-                if isinstance(a, ast.Name) and a.id in self.alias:
-                    a = ast.Name(id=self.alias[a.id])
+                    and c.func.id == '_clean_up' \
+                    and len(c.args) + len(c.keywords) == 1:
+                a = self.resolve(c.args[0] if c.args else
+                                 c.keywords[0].value)
+                pre = [('mk', HARM_SLOT, 0)] \
+                    if id(c) in self.unsafe_cleans else []
+                if pre:
+                    return pre + ([('clean', self.slots[a.id])]
+                                  if isinstance(a, ast.Name)
+                                  and a.id in self.slots else [])
                 if isinstance(a, ast.Name) and a.id in self.slots:
                     self.cleaned.add(self.slots[a.id])
                     return [('clean', self.slots[a.id])]
@@ -245,6 +377,11 @@ class _Skel(object):
                     return [('call',)]
                 raise TranslateError('%s: _clean_up of a non-name'
                                      % self.fn.name)
+            h = self.helper_of(c)
+            if h is not None:
+                body = self.inline(c, h)
+                if body is not None:
+                    return body
             if _contains_mk(c):
                 raise TranslateError('%s: unbound mk call' % self.fn.name)
             return [('call',)] if self._may_raise(c) else []
@@ -288,16 +425,18 @@ class _Skel(object):
             if not a and not b:
                 return [('call',)] if self._may_raise(s.test) else []
             return [('ite', a, b)]
+        it = self.resolve(s.iter) if isinstance(s, ast.For) else None
         if isinstance(s, ast.For) and isinstance(s.target, ast.Name) \
-                and isinstance(s.iter, (ast.Tuple, ast.List)) \
-                and s.iter.elts \
-                and all(isinstance(e, ast.Name) for e in s.iter.elts) \
-                and any(e.id in self.slots for e in s.iter.elts) \
+                and isinstance(it, (ast.Tuple, ast.List)) \
+                and it.elts \
+                and all(isinstance(self.resolve(e), ast.Name)
+                        for e in it.elts) \
+                and any(self.resolve(e).id in self.slots for e in it.elts) \
                 and not s.orelse:
             # `for d in (tmp_a, tmp_b): ...` over scratch variables: unrolled
             out = []
-            for e in s.iter.elts:
-                self.alias[s.target.id] = e.id
+            for e in it.elts:
+                self.alias[s.target.id] = self.resolve(e)
                 out += self.stmts(s.body)
             self.alias.pop(s.target.id, None)
             return out
@@ -332,6 +471,9 @@ class _Skel(object):
 
     def _live_test(self, t):
         """`<slot variable> is not None` / `is None` -> (slot, positive)"""
+        if isinstance(t, ast.Compare) and len(t.ops) == 1:
+            t = ast.Compare(left=self.resolve(t.left), ops=t.ops,
+                            comparators=t.comparators)
         if isinstance(t, ast.Compare) and len(t.ops) == 1 \
                 and isinstance(t.left, ast.Name) \
                 and t.left.id in self.slots \
@@ -417,9 +559,48 @@ def skeleton_of(repo, rel, func, cls=None):
     tree = ast.parse(_src(repo, rel))
     fn = _find_func(tree, func, cls)
     sp, op = SCRATCH_PARAMS.get(func, (['tmp_dir'], []))
-    sk = _Skel(fn, list(sp), list(op))
+    module_funcs = {n.name: n for n in tree.body
+                    if isinstance(n, ast.FunctionDef)}
+    sk = _Skel(fn, list(sp), list(op), module_funcs)
+    sk.unsafe_cleans = unsafe_cleans(fn, list(sp))
     body = _squash(sk.stmts(fn.body))
     return body, sk.n_mk
+
+
+def unsafe_cleans(fn, scratch_params):
+    """`P = mkdtemp(dir=P)` re-binds a scratch *parameter* to the private
+    sub-directory.  A `_clean_up(P)` is safe only if that assignment is an
+    unconditional top-level statement of the function that comes before the
+    top-level statement containing the clean-up: otherwise there is a path
+    (mkdtemp raised inside the `try`, or was skipped) on which P still names
+    the CALLER's directory when it is removed.  Returns the ids of the unsafe
+    `_clean_up` calls."""
+    rebind_at = {}      # param -> index of the top-level rebinding, or -1
+    for i, top in enumerate(fn.body):
+        for n in ast.walk(top):
+            if isinstance(n, ast.Assign) and len(n.targets) == 1 \
+                    and isinstance(n.targets[0], ast.Name) \
+                    and n.targets[0].id in scratch_params:
+                call = _is_mk_call(n.value)
+                d = _dir_expr(call) if call is not None else None
+                if call is not None and isinstance(d, ast.Name) \
+                        and d.id == n.targets[0].id:
+                    nm = n.targets[0].id
+                    if n is top and nm not in rebind_at:
+                        rebind_at[nm] = i
+                    elif n is not top:
+                        rebind_at[nm] = -1      # conditional / inside a try
+    bad = set()
+    for i, top in enumerate(fn.body):
+        for n in ast.walk(top):
+            if isinstance(n, ast.Call) and isinstance(n.func, ast.Name) \
+                    and n.func.id == '_clean_up' and n.args \
+                    and isinstance(n.args[0], ast.Name) \
+                    and n.args[0].id in rebind_at:
+                at = rebind_at[n.args[0].id]
+                if at < 0 or at >= i:
+                    bad.add(id(n))
+    return bad
 
 
 def lean_stmts(stmts, indent):
